@@ -113,6 +113,8 @@ def spaces(tier):
                 'subtask': sub}
     crafted = list(itertools.product(range(len(CRAFTED)), (0, 4),
                                      ('rise', 'curves')))
+    # the long table with one parameter file only
+    crafted = [c for c in crafted if c[0] != len(CRAFTED) - 1 or c[1] == 0]
 
     def decode_crafted(i):
         k, p, sub = crafted[i]
@@ -136,7 +138,8 @@ def spaces(tier):
     return [Space('pestfiles + simulate/datasets x parameter files x '
                   'subtask', len(files), decode),
             Space('pestfiles + simulate on crafted master-curve tables '
-                  '(exact zeros, signed zero, tiny, long values)',
+                  '(exact zeros, signed zero, tiny, long values, 1105 '
+                  'levels)',
                   len(crafted), decode_crafted),
             Space('pestfiles functions on one connection, files generated '
                   'before and after the recession curve is assembled',
@@ -195,8 +198,16 @@ def crafted_db(which, values):
     crossings at consecutive levels"""
     db = simdata.materialise(which, curvature=CURVATURE, name='crafted')
     c = sqlite3.connect(db)
-    levels = [r[0] for r in c.execute(
-        'SELECT zeta_number FROM discrete_zeta ORDER BY 1')][2:2 + len(values)]
+    have = [r[0] for r in c.execute(
+        'SELECT zeta_number FROM discrete_zeta ORDER BY 1')]
+    if len(have) < len(values) + 2:
+        # a finer / taller grid than the dataset's: more levels below
+        for n in range(have[0] - (len(values) + 2 - len(have)), have[0]):
+            c.execute('INSERT INTO discrete_zeta (zeta_number) VALUES (?)',
+                      (n,))
+        have = [r[0] for r in c.execute(
+            'SELECT zeta_number FROM discrete_zeta ORDER BY 1')]
+    levels = have[2:2 + len(values)]
     (rise_start,) = c.execute(
         'SELECT interval_start_epoch FROM zeta_interval_storm LIMIT 1'
     ).fetchone()
@@ -228,6 +239,9 @@ CRAFTED = [
     [1e-300, 0.0, 0.0, 1.0],
     [0.1, 0.2, 0.30000000000000004, 123456789.12345679, -1e-7],
     [5.0, 0.0],
+    # more than a thousand observations, negative ones among them
+    # (observation names reach five characters)
+    [(-1) ** k * (0.5 + 0.125 * k) for k in range(1105)],
 ]
 
 
